@@ -45,6 +45,8 @@ DOCS = {
   "A8": [st("body"), tx("only body"), et("body")],
   # ~e~ ~z~ ~g~ ~u~ stand for 2, 3, 4 and 2 byte characters (the harness substitutes them); TLA+ sources stay ASCII
   "A9": [st("html"), st("body", ' title="~e~"'), tx("caf", "~e~", " ~z~~g~"), st("p"), tx("~u~"), et("p"), et("body"), et("html")],
+  "A10": [st("html"), st("body"), sc("span"), st("p"), tx("t"), et("p"), sc("path", ' d="m"'), et("body"), et("html")],
+  "A11": [st("html"), st("body"), st("div", ' class="x"', True), txlt("if (a ", "< b)"), st("p"), tx("t"), et("p"), et("div"), st("div"), txlt("1 <", " 2"), et("div"), et("body"), et("html")],
   # ---- comments, raw text, malformed, truncated (C03 / C04) ----
   "B1": [st("html"), COPEN, tx(" "), st("body"), tx(" "), CCLOSE, st("body"), tx("x"), et("body"), et("html")],
   "B2": [st("html"), st("head"), st("title"), tx("x "), st("body"), tx(" y"), et("title"), et("head"), st("body"), tx("z"), et("body"), et("html")],
@@ -59,6 +61,7 @@ DOCS = {
   # ~!~ is an invalid byte (0xFF): the chain enters its error state when it reaches it
   "B12": [st("html"), st("p"), txlt("caf", "< b"), tx("~!~"), et("p"), et("html")],
   "B13": [st("html"), st("head"), st("meta", ' class="x"', True), tx("~!~"), et("head"), st("body"), tx("t"), et("body"), et("html")],
+  "B14": [st("html"), st("head"), st("meta"), et("meta"), st("link", ' rel="y"'), et("head"), st("body"), et("span"), tx("t"), et("body"), et("html")],
   "B11": [st("html"), st("body"), st("div", ' class="x"', True), tx("a"), st("div"), tx("b"), et("div"), et("div"), txlt("1 <", " 2"), et("body"), et("html")],
 }
 
@@ -109,8 +112,8 @@ def main():
     out.append("DocsWell == {%s}" % ", ".join(n for n in DOCS if n.startswith("A")))
     out.append("DocsMessy == {%s}" % ", ".join(n for n in DOCS if n.startswith("B")))
     out.append("FiltersAll == {%s}" % ", ".join(FILTERS))
-    out.append("FiltersQuick == {F1, F2, F3, F4, F5, F6, F8, F10, F11, F12}")
-    out.append("DocsQuick == {A2, A3, A7, A9, B1, B2, B3, B4, B5, B11, B12}")
+    out.append("FiltersQuick == {F1, F2, F3, F4, F5, F6, F8, F10, F11, F12, F16, F18}")
+    out.append("DocsQuick == {A2, A3, A7, A9, A10, A11, B1, B2, B3, B4, B5, B11, B12, B14}")
     out.append("CasesQuick == Prod(DocsQuick, FiltersQuick)")
     out.append("CasesAll == Prod(DocsWell \\cup DocsMessy, FiltersAll)")
     out.append("=============================================================================")
